@@ -779,6 +779,32 @@ impl<T: Storage> RawNode<T> {
         let _ = self.raft.step(m);
     }
 
+    /// Verification hook: read-only view of the private Ready bookkeeping
+    /// (`prev_hs`, `prev_ss`, `max_number`, `records` as
+    /// `(number, last_entry, snapshot)`, `commit_since_index`).
+    #[cfg(tikv_raft_rs_verif)]
+    #[allow(clippy::type_complexity)]
+    pub fn verif_view(
+        &self,
+    ) -> (
+        HardState,
+        (u64, StateRole),
+        u64,
+        Vec<(u64, Option<(u64, u64)>, Option<(u64, u64)>)>,
+        u64,
+    ) {
+        (
+            self.prev_hs.clone(),
+            (self.prev_ss.leader_id, self.prev_ss.raft_state),
+            self.max_number,
+            self.records
+                .iter()
+                .map(|r| (r.number, r.last_entry, r.snapshot))
+                .collect(),
+            self.commit_since_index,
+        )
+    }
+
     /// Returns the store as an immutable reference.
     #[inline]
     pub fn store(&self) -> &T {
